@@ -59,7 +59,7 @@ Lemma register_outcomes : forall cfg d callee req opts proc,
     (reg_prechecks cfg callee opts proc /\
      exists r, reg_lookup d (opt_string opts "match") proc = Some r /\
                share_ok r (opt_string opts "invoke") (s_id callee) = true /\
-               fst (fst R) = share_state d r (s_id callee) (opt_bool opts "disclose_caller") /\
+               fst (fst R) = share_state d r (s_id callee) (opt_bool opts "disclose_caller") (opt_bool opts "forward_timeout") /\
                snd (fst R) = [(s_id callee, RRegistered req (reg_id r))]) \/
     (reg_prechecks cfg callee opts proc /\
      reg_lookup d (opt_string opts "match") proc = None /\
@@ -153,7 +153,7 @@ Proof.
   destruct (share_ok r (opt_string opts "invoke") (s_id callee)) eqn:Hok; [|inversion E].
   inversion E as [[E1 E2]]. clear E E2.
   apply share_ok_iff in Hok. destruct Hok as (_ & _ & Hni).
-  exists (reg_add_callee r (s_id callee) (opt_bool opts "disclose_caller")).
+  exists (reg_add_callee r (s_id callee) (opt_bool opts "disclose_caller") (opt_bool opts "forward_timeout")).
   split; [unfold share_state; dproj; rewrite nget_nset, N.eqb_refl; reflexivity|].
   split; [reflexivity|]. split; [reflexivity|].
   assert (Hnd : ~ In (s_id callee) (reg_disclose r)) by (intros Hin; apply Hni; apply (Hs _ Hin)).
